@@ -333,9 +333,11 @@ func runGroup(w *worker, g group, record bool) bool {
 			return ">8"
 		}())
 		r.Count("impl_result", res.ErrClass)
-		r.Count("impl_trace", strings.Join(res.Tokens, " "))
-		r.Sample(5, map[string]interface{}{"class": p.Class, "len": len(d.b.wire), "script": p.Script, "cuts": p.Cuts,
-			"impl": res.Render(), "model": m.Render()})
+		r.Count("impl_trace", canonTrace(res.Tokens))
+		if d.i > 2 && len(p.Cuts) <= 8 {
+			r.Sample(5, map[string]interface{}{"class": p.Class, "len": len(d.b.wire), "script": p.Script, "cuts": p.Cuts,
+				"impl": res.Render(), "model": m.Render()})
+		}
 		desc := fmt.Sprintf("bridge seed %d (closeDelay %d s), probe #%d class %s (%d bytes, cuts %v, script %v): implementation [%s], model [%s]",
 			g.IdSeed, cdImpl, d.i, p.Class, len(d.b.wire), p.Cuts, p.Script, res.Render(), m.Render())
 
@@ -347,18 +349,18 @@ func runGroup(w *worker, g group, record bool) bool {
 		switch p.Expect {
 		case "silent":
 			if res.Written != 0 {
-				violate("bytes-written-to-invalid-peer/"+p.Class, "impl-oracle",
+				violate("bytes-written-to-invalid-peer", "impl-oracle",
 					fmt.Sprintf("%d bytes written to a peer without a valid handshake | %s", res.Written, desc), g, d.i, w)
 			}
 			if res.Blocked {
-				violate("no-deadline-armed/"+p.Class, "impl-oracle", "server blocks in Read with no deadline armed: never closes | "+desc, g, d.i, w)
+				violate("no-deadline-armed", "impl-oracle", "server blocks in Read with no deadline armed: never closes | "+desc, g, d.i, w)
 			} else if res.Closes != 1 {
-				violate("not-closed-by-delay/"+p.Class, "impl-oracle",
+				violate("not-closed-by-delay", "impl-oracle",
 					fmt.Sprintf("%d closes before WrapConn returned (the caller closes at once on error: no bridge-specific delay) | %s", res.Closes, desc), g, d.i, w)
 			} else if res.CloseByTimeout {
 				off := res.CloseOff
 				if off < 30*time.Second-srvh.Tolerance || off >= 90*time.Second {
-					violate("close-time-out-of-range/"+p.Class, "impl-oracle",
+					violate("close-time-out-of-range", "impl-oracle",
 						fmt.Sprintf("closed when the deadline +%.3fs fired, not in [30 s, 90 s) | %s", off.Seconds(), desc), g, d.i, w)
 				}
 				fr.mu.Lock()
@@ -371,7 +373,7 @@ func runGroup(w *worker, g group, record bool) bool {
 				}
 				fr.mu.Unlock()
 			} else if !scriptHasEOF(d.st) && !g.Sleeper {
-				violate("closed-early/"+p.Class, "impl-oracle", "closed although neither a deadline fired nor the peer disconnected | "+desc, g, d.i, w)
+				violate("closed-early", "impl-oracle", "closed although neither a deadline fired nor the peer disconnected | "+desc, g, d.i, w)
 			}
 		case "answered":
 			fr.answered++
@@ -401,6 +403,17 @@ func runGroup(w *worker, g group, record bool) bool {
 			fmt.Sprintf("replay filter holds %d/%d entries, model %d", ml, fl, w.srv.FacLen(fname)), g, len(g.Probes)-1, w)
 	}
 	return true
+}
+
+func canonTrace(toks []string) string {
+	out := make([]string, len(toks))
+	for i, t := range toks {
+		if strings.HasPrefix(t, "W:") {
+			t = "W"
+		}
+		out[i] = t
+	}
+	return strings.Join(out, " ")
 }
 
 func scriptHasEOF(st []srvh.Step) bool {
@@ -658,12 +671,12 @@ func main() {
 	}
 
 	var groups []group
-	nGroups := r.Scale(28, 900)
+	nGroups := r.Scale(60, 900)
 	for i := 0; i < nGroups; i++ {
 		groups = append(groups, genGroup(rng.Fork()))
 	}
 	// many bridge seeds: closeDelay as a function of the seed (one empty probe each)
-	nSeeds := r.Scale(150, 3000)
+	nSeeds := r.Scale(300, 3000)
 	for i := 0; i < nSeeds; i++ {
 		groups = append(groups, group{IdSeed: rng.U64(), Probes: []probe{
 			{Class: "empty", Kind: "junk", SameAs: -1, SrvSeed: rng.U64(), Expect: "silent"}}})
